@@ -26,6 +26,10 @@ func checkC02(c *Check) {
 	ruleDirectWrite(c, p, "R02.7")
 	ruleRawFlagPairing(c, p, "R02.8")
 	ruleEnqueueBeforeSpawn(c, p, "R02.9")
+	ruleBuffersRefetched(c, p, "R02.10", "Writer", "Reader", "CompressingReader")
+	ruleContentHashDiscipline(c, p, "R02.11")
+	c.RuleDoc["R02.10"] = "block-sized buffers agree with the frame's block size: re-fetched at frame start"
+	c.RuleDoc["R02.11"] = "content hash fed in stream order only, reset at frame start only"
 }
 
 func checkC08(c *Check) {
@@ -49,6 +53,10 @@ func checkC08(c *Check) {
 	ruleReaderShutdown(c, p, "R08.8")
 	ruleBlocksCloseLatch(c, p, "R08.9")
 	ruleOrderingGoroutineLatch(c, p, "R08.10")
+	ruleContentHashDiscipline(c, p, "R08.11")
+	ruleContentHashFeed(c, p, "R08.12")
+	c.RuleDoc["R08.11"] = "the shared running hash is touched only by the ordered path (no per-block worker feeds or resets it)"
+	c.RuleDoc["R08.12"] = "the collector does not use a block after handing it to the consumer"
 }
 
 func checkC09(c *Check) {
@@ -71,4 +79,8 @@ func checkC09(c *Check) {
 	ruleRawFlagPairing(c, p, "R09.7")
 	ruleFlagBits(c, p, "R09.8")
 	ruleSizeTables(c, p, "R09.9")
+	ruleResetRearms(c, p, "R09.10")
+	ruleContentHashDiscipline(c, p, "R09.11")
+	c.RuleDoc["R09.10"] = "Reset re-arms the header gate: every frame starts with its magic and descriptor"
+	c.RuleDoc["R09.11"] = "content hash fed in stream order only, reset at frame start only"
 }
